@@ -764,6 +764,10 @@ def propagate_sets(items):
                 out.append(("set", it[1], v) + tuple(it[3:]))
                 if it[1][0] == "name":
                     env[it[1][1]] = v
+                elif it[1][0] in ("tuple", "list") and v[0] in ("tuple", "list") and len(it[1][1]) == len(v[1]) and all(t[0] == "name" for t in it[1][1]):
+                    # `{% set row, col = i // n, i % n %}`: each name stands for its own component
+                    for t, x in zip(it[1][1], v[1]):
+                        env[t[1]] = x
                 else:
                     for n_ in targets(it[1]):
                         env.pop(n_, None)
